@@ -92,8 +92,34 @@ class Obj:
 
 
 class SetVal(list):
-    """a Python set as modelled by the interpreter: insertion-ordered list with set semantics (mutable, aliasable)"""
+    """a Python set as modelled by the interpreter: insertion-ordered list with set semantics (mutable, aliasable).
+    `hs` indexes the hashable primitive members (int / str / None / bool / UUID) for fast membership."""
     frozen = False
+
+    def __init__(self, items=()):
+        super().__init__(items)
+        self.hs = set(x for x in self if _prim(x))
+
+    def __reduce__(self):
+        return (SetVal, (list(self),))
+
+    def has_prim(self, x):
+        return x in self.hs
+
+    def push(self, x):
+        list.append(self, x)
+        if _prim(x):
+            self.hs.add(x)
+
+    def drop_at(self, i):
+        x = self[i]
+        list.__delitem__(self, i)
+        if _prim(x):
+            self.hs.discard(x)
+
+
+def _prim(x):
+    return x is None or (isinstance(x, (int, str, bool, float)) or type(x).__module__ == "uuid")
 
 
 class Opaque:
@@ -597,6 +623,9 @@ class Interp:
         if isinstance(op, (ast.In, ast.NotIn)):
             if isinstance(b, Opaque):
                 raise Uninterpretable("membership in opaque")
+            if isinstance(b, SetVal) and _prim(a):
+                res = b.has_prim(a)
+                return res if isinstance(op, ast.In) else not res
             items = list(b.keys()) if isinstance(b, dict) else self.iterate(b) if not isinstance(b, str) else None
             if items is None:
                 res = a in b
@@ -890,9 +919,14 @@ class Interp:
     def _dedupe(self, items, depth):
         out = SetVal()
         for x in items:
-            if not any(self.equals(x, y, depth) for y in out):
-                out.append(x)
+            if not self.set_contains(out, x, depth):
+                out.push(x)
         return out
+
+    def set_contains(self, o, x, depth=0):
+        if isinstance(o, SetVal) and _prim(x):
+            return o.has_prim(x)
+        return any(self.equals(x, y, depth) for y in o)
 
     def py_str(self, v, depth=0):
         if isinstance(v, str):
@@ -954,14 +988,14 @@ class Interp:
 
     def set_method(self, o, name, args, depth):
         if name == "add":
-            if not any(self.equals(args[0], y, depth) for y in o):
-                o.append(args[0])
+            if not self.set_contains(o, args[0], depth):
+                o.push(args[0])
             return None
         if name == "update":
             for a in args:
                 for x in self.iterate(a):
-                    if not any(self.equals(x, y, depth) for y in o):
-                        o.append(x)
+                    if not self.set_contains(o, x, depth):
+                        o.push(x)
             return None
         if name in ("union", "__or__"):
             out = SetVal(o)
@@ -970,30 +1004,33 @@ class Interp:
         if name in ("intersection", "__and__"):
             out = SetVal(o)
             for a in args:
-                items = self.iterate(a)
-                out = SetVal(x for x in out if any(self.equals(x, y, depth) for y in items))
+                items = a if isinstance(a, SetVal) else self._dedupe(self.iterate(a), depth)
+                out = SetVal(x for x in out if self.set_contains(items, x, depth))
             return out
         if name in ("difference", "__sub__"):
             out = SetVal(o)
             for a in args:
-                items = self.iterate(a)
-                out = SetVal(x for x in out if not any(self.equals(x, y, depth) for y in items))
+                items = a if isinstance(a, SetVal) else self._dedupe(self.iterate(a), depth)
+                out = SetVal(x for x in out if not self.set_contains(items, x, depth))
             return out
         if name in ("discard", "remove"):
             hits = [i for i, y in enumerate(o) if self.equals(args[0], y, depth)]
             if hits:
-                del o[hits[0]]
+                o.drop_at(hits[0])
             elif name == "remove":
                 raise Raised("KeyError", "remove")
             return None
         if name == "pop":
             if not o:
                 raise Raised("KeyError", "pop from an empty set")
-            return list.pop(o, 0)
+            x = o[0]
+            o.drop_at(0)
+            return x
         if name == "copy":
             return SetVal(o)
         if name == "clear":
             del o[:]
+            o.hs.clear()
             return None
         if name in ("issubset", "issuperset", "isdisjoint"):
             other = self.iterate(args[0])
